@@ -258,14 +258,18 @@ def scenario(sseed, kind, mode):
     return lines, expect, doc, tags
 
 
-def crash_scenario(sseed, kind, res):
+def crash_scenario(sseed, kind, res, its=None):
     """C08 at tuner level: crash before every file write (oracle.json, trial.json, tuner0.json) of a whole search"""
     kt = impl()
     R0 = random.Random(sseed)
     specs = gen.rand_specs(R0, finite=(kind == "grid"), nonfixed=(kind == "bayes"), maxdepth=2)
-    over = dict(max_epochs=R0.randint(1, 4), factor=2, iterations=1) if kind == "hyperband" else (dict(max_trials=R0.randint(1, 4)) if kind in ("random", "bayes") else dict(max_trials=R0.randint(2, 5)))
+    its = its or R0.randint(1, 2)      # more than one sweep: the sweep counter is part of what a restart has to find again
+    over = dict(max_epochs=R0.randint(1, 4 if its == 1 else 3), factor=2, iterations=its) if kind == "hyperband" else (dict(max_trials=R0.randint(1, 4)) if kind in ("random", "bayes") else dict(max_trials=R0.randint(2, 5)))
+    if kind == "hyperband" and its == 2:
+        over["max_consecutive_failed_trials"] = 6       # let most of these searches reach their second sweep
+        specs.append({"name": "hf", "kind": "float", "conds": [], "lo": 0.0, "hi": 1.0, "step": None, "sampling": "linear", "default": None})   # ... and not run out of configurations
     cfg = dict(oseed=R0.randrange(1 << 30), over=over)
-    script0 = make_script(R0, 30)
+    script0 = make_script(R0, 90)
     gate = WriteGate()
     gate.install()
     try:
@@ -273,8 +277,9 @@ def crash_scenario(sseed, kind, res):
             t = build_tuner(kind, specs, d, cfg, list(script0), [])
             how = run_search(t, [])
             W = gate.count
-        for k in range(W + 1):
-            res.scenarios += 1
+        found = []
+
+        def one_crash(k):
             with tempdir("ktw") as d:
                 gate.count = 0
                 gate.budget = k
@@ -288,7 +293,7 @@ def crash_scenario(sseed, kind, res):
                     crashed = True
                 gate.budget = None
                 if not crashed:
-                    continue
+                    return
                 pdir = os.path.join(d, "p")
                 disk_end, disk_state = [], {}
                 if os.path.exists(os.path.join(pdir, "oracle.json")):
@@ -303,7 +308,7 @@ def crash_scenario(sseed, kind, res):
                 sig = {"window": "oracle-file-without-tuner-file"} if (len(disk_end) == 1 and not tuner_file) else {}
                 log2 = []
                 try:
-                    t2 = build_tuner(kind, specs, d, cfg, script + make_script(R0, 10), log2)
+                    t2 = build_tuner(kind, specs, d, cfg, script + make_script(R0, 40), log2)
                     how2 = run_search(t2, log2)
                 except Exception as e:
                     raise Violation("C08", f"{kind}: restart after a crash before write {k + 1} fails: {type(e).__name__}: {str(e)[:100]}", {**sig, "tag": "restart-fails", "kind": kind})
@@ -316,14 +321,36 @@ def crash_scenario(sseed, kind, res):
                 if how2 == "stopped":
                     left = [tid for tid, tr in o2.trials.items() if tr.status == "RUNNING"]
                     if left:
-                        raise Violation("C08", f"{kind}: trials {left} left RUNNING after the resumed search finished", {**sig, "tag": "left-running", "kind": kind})
+                        v = Violation("C08", f"{kind}: trials {left} left RUNNING after the resumed search finished", {**sig, "tag": "left-running", "kind": kind})
+                        # the same fact in the words of C19: a trial the loop started is, after the restart, neither recorded as ended nor run again
+                        v.also = [Violation("C19", f"{kind}: the search loop started trial(s) {left}; the process died before write {k + 1} of {W}; the restarted search (overwrite off) "
+                                                   "finishes without running them again and without an end on record: they stay RUNNING for good",
+                                            {**sig, "tag": "left-running", "kind": kind})]
+                        raise v
                 if o2.max_trials and len(o2.trials) > o2.max_trials:
                     raise Violation("C08", f"{kind}: budget exceeded after restart", {**sig, "tag": "budget", "kind": kind})
+                if kind == "hyperband" and how2 == "stopped" and not sig:
+                    from harness.suite_hyperband import round0_account
+                    msg = round0_account(o2, gave_up=True)       # upper bound only: the budget of a Hyperband search is its schedule
+                    if msg:
+                        raise Violation("C08", f"hyperband: after a crash before write {k + 1} of {W} and a restart, {msg}", {**sig, "tag": "budget", "kind": kind})
                 if len(set(o2.start_order)) != len(o2.start_order) or len(set(o2.end_order)) != len(o2.end_order):
                     raise Violation("C08", f"{kind}: duplicate ids after restart: start {o2.start_order} end {o2.end_order}", {**sig, "tag": "dup", "kind": kind})
                 monitor_c19(log2, o2, how2)
                 res.nontrivial.add(hashlib.sha1(f"{sseed}-{k}".encode()).hexdigest())
                 res.evaluations += 1
+        for k in range(W + 1):
+            res.scenarios += 1
+            try:
+                one_crash(k)
+            except Violation as v:
+                # one crash point failing (e.g. the window of a known finding) must not hide the others
+                for x in [v] + list(getattr(v, "also", [])):
+                    if not any((y.pid, y.sig) == (x.pid, x.sig) for y in found):
+                        found.append(x)
+        if found:
+            found[0].also = found[1:]
+            raise found[0]
     finally:
         gate.remove()
 
@@ -360,15 +387,19 @@ def run(seed, tier, n=None, kinds=KINDS, crash_n=None):
         if len(res.samples) < 2 and doc["trials"] >= 2:
             res.samples.append({"scenario": doc, "impl_trace": expect[0]})
     for i in range(crash_n):
-        kind = kinds[i % len(kinds)]
+        # the suite runs in pieces (piece number = seed % 1000) of one or two crash-enumerated searches each: the kind rotates with the piece
+        piece = seed % 1000
+        kind = kinds[(piece + i) % len(kinds)]
         if kind == "bayes":
             kind = "random"
         sseed = R.randrange(1 << 30)
+        its = 1 + (piece + i // len(kinds)) % 2
         try:
-            crash_scenario(sseed, kind, res)
+            crash_scenario(sseed, kind, res, its=its)
             res.hist["crash-enumerated-searches"] += 1
         except Violation as v:
-            res.violations.append({"pid": v.pid, "what": v.what, "sig": v.sig, "replay": {"suite": "search", "seed": sseed, "kind": kind, "mode": "crash"}})
+            for x in [v] + list(getattr(v, "also", [])):
+                res.violations.append({"pid": x.pid, "what": x.what, "sig": x.sig, "replay": {"suite": "search", "seed": sseed, "kind": kind, "mode": "crash", "its": its}})
     try:
         out = run_driver(all_lines) if all_lines else []
     except Exception as e:
@@ -383,7 +414,7 @@ def replay(doc):
     res = Result("search")
     try:
         if doc.get("mode") == "crash":
-            crash_scenario(doc["seed"], doc["kind"], res)
+            crash_scenario(doc["seed"], doc["kind"], res, its=doc.get("its"))
             return res
         lines, expect, d, tags = scenario(doc["seed"], doc["kind"], doc["mode"])
     except Violation as v:
